@@ -460,7 +460,7 @@ func main() {
 		{"seg=1big+1small,nosync", int32(rb + rs + 3), small, big, false},
 		{"seg=3small,nosync", int32(3*rs + 3), small, big, false},
 	}
-	depth := 5
+	depth := 6
 	budget := 100 * time.Second
 	if run.Tier == "thorough" {
 		depth = 8
